@@ -34,6 +34,8 @@ import DdsModel.Proofs.Enc13Opaque
 import DdsModel.Proofs.Enc13Single
 import DdsModel.Proofs.Enc7Consequences
 import DdsModel.Proofs.Enc7Stats
+import DdsModel.Proofs.EncBc15Bc2
+import DdsModel.Proofs.EncBc15PaletteBc4
 namespace Dds.C13
 open Dds Dds.Bc Dds.Enc13
 
@@ -741,5 +743,304 @@ example : Enc7.isOpaque (Enc7.blockStats [[1, 2, 3, 255], [9, 9, 9, 255]]) = tru
     Enc7.singleColor (Enc7.blockStats [[1, 2, 3, 4], [1, 2, 3, 4]]) = some [1, 2, 3, 4] ∧
     Enc7.singleColor (Enc7.blockStats [[1, 2, 3, 4], [1, 2, 3, 5]]) = none ∧
     Enc7.singleAlpha (Enc7.blockStats [[1, 2, 3, 77], [9, 2, 3, 77]]) = some 77 := by decide
+
+/-! ## BC1–BC5 encoders: the discrete core (`EncBc15.lean`; src/encode/bc1.rs, bc4.rs, bc.rs) — section of builder U
+
+What the BC1 / BC2 / BC3 / RXGB / BC3n / BC4 / BC5 encoders WRITE decodes to what they COMPUTED: the block writers
+(`EndPoints::with_indexes` of bc1.rs and bc4.rs, the two `IndexList`s with the `debug_assert!`s of `set`, `AlphaMap`,
+`transparent_index`, `concat_blocks` and the channel wiring of bc.rs) are right inverses of the proved decoders of C03 on
+the palette entries the index lists name; the endpoint order that `new_p4` / `new_p3_default` / `new_inter6` /
+`inter6_to_inter4` establish selects, in the decoder, the palette the encoder built.  The float endpoint search is a
+parameter (two valid 5:6:5 colours; two bytes / SNORM levels), and so is every per-pixel choice of `closest`. -/
+
+open Dds.Enc15 in
+/-- T1. BC1 and the colour half of BC2 / BC3 / RXGB / BC3n.  For EVERY palette mode, EVERY pair of valid 5:6:5 colours
+(in any order, equal or not), every alpha map and every per-pixel choice of `closest` (`< 4`; `< 3` in P3, where the scan
+stops before the filler entry), with P4 only ever given the all-opaque map (`compress_p4`):
+no `debug_assert!` of `IndexList::set` / `transparent_index` fires; the list holds `closest`'s choice at opaque and 3 at
+transparent pixels; the 8 bytes decode under `Bc.decodeBlock` (= `BcSpec`, C03), at every precision and pixel, to entry
+`index_p` of the palette over the ORDERED pair `create_endpoints(e0, e1)` in the encoder's mode — the swap and the
+tie-break included; there is no re-mapping of indexes in the code because the palette is built after the ordering —
+and the block is `Portable` as BC1 (index 3 of three-colour mode only under the transparency mask).
+Behind ANY 8 first bytes the P4 block decodes, under the always-four-colour decoder of BC2 / BC3, to the same P4 entries
+with alpha 255, and the 16-byte block is `Portable` for all six BC2 / BC3-family formats. -/
+theorem bc1_writer_roundtrip (mode : PaletteMode) (e0 e1 : C565) (v0 : e0.Valid) (v1 : e1.Valid)
+    (alphaMap : Nat) (sel : Nat → Nat)
+    (hs : ∀ i, i < 16 → isOpaque alphaMap i = true → sel i < (if mode = .p3 then 3 else 4))
+    (hm : mode = .p4 → ∀ i, i < 16 → isOpaque alphaMap i = true) :
+    ∃ idx, blockIndexes mode alphaMap sel = some idx ∧ idx < 2 ^ 32 ∧
+      (∀ p, p < 16 → idxGet 2 idx p = indexAt alphaMap sel p) ∧
+      emitColour mode e0 e1 alphaMap sel = some (withIndexes (createEndpoints mode e0 e1) idx) ∧
+      (∀ pr, Bc.decodeBlock .bc1 pr (blkOf (withIndexes (createEndpoints mode e0 e1) idx)) =
+        (List.range 16).map fun p =>
+          (intendedColour mode (createEndpoints mode e0 e1) (indexAt alphaMap sel p)).map (BcSpec.widen pr)) ∧
+      (∀ ok3, (∀ p, p < 16 → isOpaque alphaMap p = false → ok3.testBit p = true) →
+        Portable (some .bc1) (blkOf (withIndexes (createEndpoints mode e0 e1) idx)) ok3 = true) ∧
+      (mode = .p4 → ∀ first : List Nat, first.length = 8 → (∀ x ∈ first, x < 256) →
+        (∀ p, p < 16 →
+          let c := Bc.bc1NoDefaultPx (Bc.upper (blkOf (concatBlocks first (withIndexes (createEndpoints .p4 e0 e1) idx)))) p
+          [c.1, c.2.1, c.2.2.1] = intendedRgb .p4 (createEndpoints .p4 e0 e1) (indexAt alphaMap sel p) ∧ c.2.2.2 = 255) ∧
+        ∀ f ∈ [Fmt.bc2, .bc2p, .bc3, .bc3p, .rxgb, .bc3n], ∀ ok3,
+          Portable (some f) (blkOf (concatBlocks first (withIndexes (createEndpoints .p4 e0 e1) idx))) ok3 = true) := by
+  obtain ⟨idx, h1, h2, h3, h4, h5, h6, h7⟩ := bc1_block mode e0 e1 v0 v1 alphaMap sel hs hm
+  refine ⟨idx, h1, h2, h3, h4, h6, h7, ?_⟩
+  intro hmode first hl hf
+  subst hmode
+  refine ⟨fun p hp => ?_, fun f hfm ok3 => colour_half_portable first hl e0 e1 v0 v1 idx ok3 f hfm⟩
+  have hb := blkOf_lt _ (concat_lt hf h5)
+  have h := colour_half first hl e0 e1 v0 v1 idx h2 p
+  rw [Bc.colorUpper_eq _ hb p hp, ← h3 p hp]
+  exact h
+
+open Dds.Enc15 in
+/-- P4 with `e0 < e1` (the swap of `new_p4` runs), equal colours with `b = 0` and `b ≠ 0` (both tie-breaks), and P3 with
+`e0 > e1` (the swap of `new_p3_default` runs) under a map with transparent pixels: the blocks and what they decode to -/
+example :
+    createEndpoints .p4 ⟨1, 2, 3⟩ ⟨30, 60, 20⟩ = (⟨30, 60, 20⟩, ⟨1, 2, 3⟩) ∧
+    emitColour .p4 ⟨1, 2, 3⟩ ⟨30, 60, 20⟩ 0xFFFF (fun i => i % 4) = some [148, 247, 67, 8, 0xE4, 0xE4, 0xE4, 0xE4] ∧
+    (Bc.decodeBlock .bc1 .u8 (blkOf [148, 247, 67, 8, 0xE4, 0xE4, 0xE4, 0xE4])).take 4 =
+      [[247, 243, 165, 255], [8, 8, 25, 255], [167, 165, 118, 255], [88, 86, 71, 255]] ∧
+    (List.range 4).map (intendedColour .p4 (createEndpoints .p4 ⟨1, 2, 3⟩ ⟨30, 60, 20⟩)) =
+      [[247, 243, 165, 255], [8, 8, 25, 255], [167, 165, 118, 255], [88, 86, 71, 255]] ∧
+    createEndpoints .p4 ⟨3, 7, 0⟩ ⟨3, 7, 0⟩ = (⟨3, 7, 1⟩, ⟨3, 7, 0⟩) ∧
+    createEndpoints .p4 ⟨3, 7, 5⟩ ⟨3, 7, 5⟩ = (⟨3, 7, 5⟩, ⟨3, 7, 4⟩) ∧
+    createEndpoints .p3 ⟨30, 60, 20⟩ ⟨1, 2, 3⟩ = (⟨1, 2, 3⟩, ⟨30, 60, 20⟩) ∧
+    emitColour .p3 ⟨30, 60, 20⟩ ⟨1, 2, 3⟩ 0x0F0F (fun i => i % 3) = some [67, 8, 148, 247, 0x24, 0xFF, 0x92, 0xFF] ∧
+    (Bc.decodeBlock .bc1 .u8 (blkOf [67, 8, 148, 247, 0x24, 0xFF, 0x92, 0xFF])).take 5 =
+      [[8, 8, 25, 255], [247, 243, 165, 255], [128, 125, 95, 255], [8, 8, 25, 255], [0, 0, 0, 0]] ∧
+    -- an assertion fires: a second palette without transparent entry asked for one; an index that is not 2 bits
+    emitColour .p4 ⟨1, 2, 3⟩ ⟨30, 60, 20⟩ 0xFFFE (fun _ => 0) = none ∧
+    emitColour .p3 ⟨1, 2, 3⟩ ⟨30, 60, 20⟩ 0xFFFF (fun _ => 4) = none := by decide +kernel
+
+open Dds.Enc15 in
+/-- T2. The BC4 family: BC4 UNORM / SNORM, both halves of BC5 UNORM / SNORM, the alpha block of BC3 and the red block of
+RXGB / BC3n in front of the colour block.  For EVERY pair of endpoint bytes and every sixteen 3-bit indexes — as an index
+list built by sixteen `set`s (no assertion fires, `get` returns the values) or by `new_all` — the proved decoder returns
+at every pixel and precision the quantised value of entry `index_p` of the BC4 palette of the pair: eight values when
+`c0 > c1` (SNORM: as `i8`), six values plus 0 and 1 otherwise, over the bytes (UNORM, `/255`) or the levels
+`0..254` (SNORM, `/254`, `0x80` and `0x81` both level 0).  And the constructors tie the order to the palette the encoder
+built: `new_inter6` gives the eight-value order (never swaps under SNORM, never writes `0x80`), `new_inter4` /
+`inter6_to_inter4` the six-value order, `new_closest` keeps level `n` at index 0. -/
+theorem bc4_writer_roundtrip :
+    -- index lists
+    (∀ v : Nat → Nat, (∀ j, v j < 8) →
+      idxFill 3 U64 (fun i => some (v i)) = some (packed 3 v 16) ∧ packed 3 v 16 < 2 ^ 48 ∧
+      ∀ i, i < 16 → idxGet 3 (packed 3 v 16) i = v i) ∧
+    (∀ value, value < 8 → ∃ d, newAll value = some d ∧ d < 2 ^ 48 ∧ ∀ i, i < 16 → idxGet 3 d i = value) ∧
+    -- BC4 and BC5, UNORM and SNORM
+    (∀ (snorm : Bool) (c0 c1 data : Nat), c0 < 256 → c1 < 256 → data < 2 ^ 48 → ∀ pr,
+      Bc.decodeBlock (if snorm then .bc4s else .bc4u) pr (blkOf (withIndexes4 c0 c1 data)) =
+        (List.range 16).map fun p => [BcSpec.quant pr (intended4 (sixOfBytes snorm c0 c1) (levelOfByte snorm c0)
+          (levelOfByte snorm c1) (if snorm then 254 else 255) (idxGet 3 data p))]) ∧
+    (∀ (snorm : Bool) (r0 r1 rdata g0 g1 gdata : Nat), r0 < 256 → r1 < 256 → g0 < 256 → g1 < 256 → rdata < 2 ^ 48 →
+      gdata < 2 ^ 48 → ∀ pr,
+      Bc.decodeBlock (if snorm then .bc5s else .bc5u) pr
+          (blkOf (concatBlocks (withIndexes4 r0 r1 rdata) (withIndexes4 g0 g1 gdata))) =
+        (List.range 16).map fun p =>
+          [BcSpec.quant pr (intended4 (sixOfBytes snorm r0 r1) (levelOfByte snorm r0) (levelOfByte snorm r1)
+              (if snorm then 254 else 255) (idxGet 3 rdata p)),
+           BcSpec.quant pr (intended4 (sixOfBytes snorm g0 g1) (levelOfByte snorm g0) (levelOfByte snorm g1)
+              (if snorm then 254 else 255) (idxGet 3 gdata p)),
+           BcSpec.quant pr (if snorm then 1 / 2 else 0)]) ∧
+    -- BC3 (alpha block first), RXGB (red block first, green / blue from the colour block), BC3n at 8 bit
+    (∀ (a0 a1 adata : Nat) (e0 e1 : C565) (idx : Nat), a0 < 256 → a1 < 256 → adata < 2 ^ 48 → e0.Valid → e1.Valid →
+      idx < 2 ^ 32 →
+      let blk := blkOf (concatBlocks (withIndexes4 a0 a1 adata) (withIndexes (createEndpoints .p4 e0 e1) idx))
+      let a (p : Nat) := BcSpec.rnd (255 * intended4 (decide (a0 > a1)) a0 a1 255 (idxGet 3 adata p))
+      let rgb (p : Nat) := intendedRgb .p4 (createEndpoints .p4 e0 e1) (idxGet 2 idx p)
+      (∀ pr, Bc.decodeBlock .bc3 pr blk = (List.range 16).map fun p => (rgb p ++ [a p]).map (BcSpec.widen pr)) ∧
+      (∀ pr, Bc.decodeBlock .rxgb pr blk = (List.range 16).map fun p => ([a p] ++ (rgb p).drop 1).map (BcSpec.widen pr)) ∧
+      (∀ p, p < 16 → Bc.px8 .bc3n blk p = [a p, (rgb p).getD 1 0, Bc.calcB (a p) ((rgb p).getD 1 0)])) ∧
+    -- the constructors
+    (∀ (snorm : Bool) (minR maxR minF maxC : Nat), minR ≤ maxR → minF ≤ maxC →
+      maxR ≤ (if snorm then 254 else 255) → maxC ≤ (if snorm then 254 else 255) →
+      let mm := fixDistinct minR maxR minF maxC
+      let e := newInter6 snorm minR maxR minF maxC
+      e.c0 < 256 ∧ e.c1 < 256 ∧ sixOfBytes snorm e.c0 e.c1 = true ∧
+      sixOfBytes snorm (newInter4 snorm minR maxR minF maxC).c0 (newInter4 snorm minR maxR minF maxC).c1 = false ∧
+      levelOfByte snorm e.c0 = mm.2 ∧ levelOfByte snorm e.c1 = mm.1 ∧ mm.1 < mm.2 ∧
+      (snorm = true → e.c0 = fromNorm mm.2 ∧ e.c1 = fromNorm mm.1 ∧ e.c0 ≠ 128 ∧ e.c1 ≠ 128)) ∧
+    (∀ (snorm : Bool) (n : Nat), n ≤ (if snorm then 254 else 255) →
+      (newClosest snorm n).c0 < 256 ∧ (newClosest snorm n).c1 < 256 ∧ levelOfByte snorm (newClosest snorm n).c0 = n ∧
+      (snorm = true → (newClosest snorm n).c0 ≠ 128 ∧ (newClosest snorm n).c1 = 129)) := by
+  refine ⟨?_, ?_, ?_, ?_, ?_, ?_, ?_⟩
+  · intro v hv
+    exact idxFill_spec 3 U64 (by decide) (by decide) v hv _ (fun _ _ => rfl)
+  · intro value hv
+    refine ⟨_, newAll_spec value hv, packed_lt 3 _ (fun _ => hv) 16, fun i hi => ?_⟩
+    exact idxGet_packed 3 (by decide) _ (fun _ => hv) 16 i hi
+  · intro snorm c0 c1 data h0 h1 hd pr
+    exact bc4_block snorm c0 c1 data h0 h1 hd pr
+  · intro snorm r0 r1 rdata g0 g1 gdata hr0 hr1 hg0 hg1 hrd hgd pr
+    exact bc5_block snorm r0 r1 rdata g0 g1 gdata hr0 hr1 hg0 hg1 hrd hgd pr
+  · intro a0 a1 adata e0 e1 idx h0 h1 hd v0 v1 hi
+    exact ⟨fun pr => bc3_block a0 a1 adata h0 h1 hd e0 e1 v0 v1 idx hi pr,
+      fun pr => rxgb_block a0 a1 adata h0 h1 hd e0 e1 v0 v1 idx hi pr,
+      fun p hp => bc3n_block a0 a1 adata h0 h1 hd e0 e1 v0 v1 idx hi p hp⟩
+  · intro snorm minR maxR minF maxC h1 h2 hR hC
+    exact newInter6_spec snorm minR maxR minF maxC h1 h2 hR hC
+  · intro snorm n hn
+    exact newClosest_spec snorm n hn
+
+open Dds.Enc15 in
+/-- six-interpolant and four-interpolant order, UNORM and SNORM (`from_norm 200 = 73`, `from_norm 10 = 139 = −117`), a
+`new_all` list, and BC5 with the two halves in different modes -/
+example :
+    (newInter6 false 10 200 10 200).c0 = 200 ∧ (newInter6 false 10 200 10 200).c1 = 10 ∧
+    (newInter4 false 10 200 10 200).c0 = 10 ∧ (newInter6 true 10 200 10 200).c0 = 73 ∧
+    (newInter6 true 10 200 10 200).c1 = 139 ∧ (newInter6 false 7 7 7 7).c0 = 7 ∧ (newInter6 false 7 7 7 7).c1 = 6 ∧
+    idxFill 3 U64 (fun i => some (i % 8)) = some 0xFAC688FAC688 ∧ newAll 5 = some 0xB6DB6DB6DB6D ∧
+    Bc.decodeBlock .bc4u .u8 (blkOf (withIndexes4 200 10 0xFAC688FAC688)) =
+      (List.range 16).map (fun p => [[200, 10, 173, 146, 119, 91, 64, 37].getD (p % 8) 0]) ∧
+    Bc.decodeBlock .bc4u .u8 (blkOf (withIndexes4 10 200 0xFAC688FAC688)) =
+      (List.range 16).map (fun p => [[10, 200, 48, 86, 124, 162, 0, 255].getD (p % 8) 0]) ∧
+    (Bc.decodeBlock .bc5s .u8 (blkOf (concatBlocks (withIndexes4 73 139 0xFAC688FAC688) (withIndexes4 139 73 0xB6DB6DB6DB6D)))).take 3 =
+      [[201, 163, 128], [10, 163, 128], [174, 163, 128]] := by decide +kernel
+
+open Dds.Enc15 in
+/-- T4. BC2 = `concat_blocks(bc2_alpha(alpha), compress_bc1_block(..))`.  For ANY sixteen 8-bit alphas and any P4 colour
+block the 16 bytes decode, at every precision, to the P4 entry of the colour index and alpha `17·⌊(2a + 17)/34⌋`
+(`Enc13Tie.bc2_alpha_block` for the alpha bytes); the nibble layout of the writer is the decoder's for all sixteen 4-bit
+values at once: byte `k` = `n₂ₖ + 16·n₂ₖ₊₁`, pixel `p` shows `17·nₚ`. -/
+theorem bc2_writer_roundtrip :
+    (∀ (alphas : List Nat) (e0 e1 : C565) (idx : Nat), (∀ a ∈ alphas, a ≤ 255) → e0.Valid → e1.Valid → idx < 2 ^ 32 → ∀ pr,
+      Bc.decodeBlock .bc2 pr (blkOf (concatBlocks (bc2AlphaBlock alphas) (withIndexes (createEndpoints .p4 e0 e1) idx))) =
+        (List.range 16).map fun p =>
+          (intendedRgb .p4 (createEndpoints .p4 e0 e1) (idxGet 2 idx p) ++ [17 * n4FromU8 (alphas.getD p 0)]).map
+            (BcSpec.widen pr)) ∧
+    (∀ n : List Nat, n.length = 16 → (∀ x ∈ n, x ≤ 15) →
+      (∀ k, k < 8 → (bc2AlphaBlock (n.map (17 * ·))).getD k 0 = n.getD (2 * k) 0 + 16 * n.getD (2 * k + 1) 0) ∧
+      ∀ p, p < 16 → Bc.bc2Alpha (blkOf (bc2AlphaBlock (n.map (17 * ·)))) p = 17 * n.getD p 0) :=
+  ⟨fun alphas e0 e1 idx ha v0 v1 hi pr => bc2_full alphas ha e0 e1 v0 v1 idx hi pr, bc2_nibbles⟩
+
+open Dds.Enc15 in
+example :
+    bc2AlphaBlock ((List.range 16).map (17 * ·)) = [0x10, 0x32, 0x54, 0x76, 0x98, 0xBA, 0xDC, 0xFE] ∧
+    (Bc.decodeBlock .bc2 .u8 (blkOf (concatBlocks (bc2AlphaBlock ((List.range 16).map (17 * ·)))
+      [148, 247, 67, 8, 0xE4, 0xE4, 0xE4, 0xE4]))).take 4 =
+      [[247, 243, 165, 0], [8, 8, 25, 17], [167, 165, 118, 34], [88, 86, 71, 51]] := by decide +kernel
+
+open Dds.Enc15 in
+/-- T3 (colour). The encoder's OWN palette of bc1.rs, evaluated in binary32 exactly as `R5G6B5Color::to_vec`
+(`n5::f32`, `n6::f32`) and `Palette::new_p4` (`c0 * (2/3) + c1 * (1/3)`, `c0 * (1/3) + c1 * (2/3)`) / `Palette::new_p3`
+(`(c0 + c1) * 0.5`) compute it, against the decoder's palette.  For BOTH channel widths, EVERY pair of endpoint levels
+(32 × 32, 64 × 64), both modes and every entry that can be selected (4 in P4, 3 in P3): the f32 entry `v`
+* is finite, non-negative, with negative exponent, so that its value is the fraction `f32Frac v` (first clause: this IS
+  `CF32.toRat v`);
+* rounds to nearest (`⌊255·v + ½⌋`) to exactly the 8-bit value the DECODER shows for that entry
+  (`BcSpec.chan8` = `Bc`'s multiply-add-shift palette, C03) — including the exact ties `a + b = 31` / `63` of the P3 mid
+  colour, where `(c0 + c1) * 0.5` is exactly `0.5` and both sides go up;
+* lies within `2^-22` of the exact rational entry `(w0·a + w1·b)/((w0 + w1)·m)`, which is the specification's entry.
+So the errors the encoder minimises are errors against the decoded colours up to 8-bit rounding.  Kernel-checked by
+complete evaluation (`Proofs/EncBc15Pal5.lean`, `Pal6a … h`). -/
+theorem bc1_palette_f32_rounds_to_decoder :
+    (∀ v, f32Small v = true → CF32.toRat v = ((f32Frac v).1 : Rat) / ((f32Frac v).2 : Rat)) ∧
+    (∀ (mode : PaletteMode) (a b k : Nat), a ≤ 31 → b ≤ 31 → k < (if mode = .p3 then 3 else 4) →
+      let v := paletteEntry mode (Conv.n5f32 a) (Conv.n5f32 b) k
+      let w := paletteWeights mode k
+      f32Small v = true ∧ f32Nearest8 v = BcSpec.chan8 (decide (mode = .p4)) k a b 31 ∧
+      f32Within22 v (w.1 * a + w.2 * b) ((w.1 + w.2) * 31) = true ∧
+      BcSpec.colorEntry (decide (mode = .p4)) k a b 31 = some (BcSpec.interp w.1 w.2 a b 31)) ∧
+    (∀ (mode : PaletteMode) (a b k : Nat), a ≤ 63 → b ≤ 63 → k < (if mode = .p3 then 3 else 4) →
+      let v := paletteEntry mode (Conv.n6f32 a) (Conv.n6f32 b) k
+      let w := paletteWeights mode k
+      f32Small v = true ∧ f32Nearest8 v = BcSpec.chan8 (decide (mode = .p4)) k a b 63 ∧
+      f32Within22 v (w.1 * a + w.2 * b) ((w.1 + w.2) * 63) = true ∧
+      BcSpec.colorEntry (decide (mode = .p4)) k a b 63 = some (BcSpec.interp w.1 w.2 a b 63)) := by
+  have hw : ∀ (mode : PaletteMode) (a b k m : Nat), k < (if mode = .p3 then 3 else 4) →
+      BcSpec.colorEntry (decide (mode = .p4)) k a b m =
+        some (BcSpec.interp (paletteWeights mode k).1 (paletteWeights mode k).2 a b m) := by
+    intro mode a b k m hk
+    cases mode with
+    | p4 =>
+      simp only [reduceCtorEq, if_false] at hk
+      have : k = 0 ∨ k = 1 ∨ k = 2 ∨ k = 3 := by omega
+      rcases this with rfl | rfl | rfl | rfl <;> rfl
+    | p3 =>
+      simp only [if_true] at hk
+      have : k = 0 ∨ k = 1 ∨ k = 2 := by omega
+      rcases this with rfl | rfl | rfl <;> rfl
+  refine ⟨f32Frac_spec, ?_, ?_⟩
+  · intro mode a b k ha hb hk
+    have h := (okEntry_iff _ _ _ _).mp (palette5 mode a b k ha hb hk)
+    exact ⟨h.1, h.2.1, h.2.2, hw mode a b k 31 hk⟩
+  · intro mode a b k ha hb hk
+    have h := (okEntry_iff _ _ _ _).mp (palette6 mode a b k ha hb hk)
+    exact ⟨h.1, h.2.1, h.2.2, hw mode a b k 63 hk⟩
+
+open Dds.Enc15 in
+/-- the P4 entry 3 of red endpoints 1 and 30 is the pattern 1059580410 = 0.65591…, which rounds to 167 = the decoder's
+second third colour; the P3 mid of 1 and 30 is exactly 0.5 (a tie: 127.5) and both sides show 128 -/
+example :
+    paletteEntry .p4 (Conv.n5f32 1) (Conv.n5f32 30) 3 = 1059580410 ∧ f32Nearest8 1059580410 = 167 ∧
+    BcSpec.chan8 true 3 1 30 31 = 167 ∧
+    paletteEntry .p3 (Conv.n5f32 1) (Conv.n5f32 30) 2 = 0x3F000000 ∧ f32Frac 0x3F000000 = (8388608, 16777216) ∧
+    f32Nearest8 0x3F000000 = 128 ∧ BcSpec.chan8 false 2 1 30 31 = 128 := by decide +kernel
+
+open Dds.Enc15 in
+/-- T3 (index maps of bc4.rs). `Inter6Palette::closest` turns the interpolation step `j = blend7` (counted from `c1`:
+`closest = j·factor2 + c1`) into the index `INDEX_MAP[j]`; for EVERY endpoint pair that index's entry of the decoder's
+eight-value palette is exactly the `j`-th point: weights `j : 7 − j` on `(c0, c1)` (`j = 0` ↦ `c1`, `j = 7` ↦ `c0`), and
+`INDEX_MAP` is a permutation of `0..7`.  `Inter4Palette` uses the index as position in `colors`: entry `k` of the
+decoder's six-value palette has weights `6 − k : k − 1` (the `0.8/0.2 … 0.2/0.8` of `Inter4Palette::new`), 6 is 0, 7 is 1. -/
+theorem bc4_index_map_spec (c0 c1 m : Nat) :
+    (∀ j, 1 ≤ j → j ≤ 6 → intended4 true c0 c1 m (INDEX_MAP.getD j 0) = BcSpec.interp j (7 - j) c0 c1 m) ∧
+    intended4 true c0 c1 m (INDEX_MAP.getD 0 0) = BcSpec.interp 0 1 c0 c1 m ∧
+    intended4 true c0 c1 m (INDEX_MAP.getD 7 0) = BcSpec.interp 1 0 c0 c1 m ∧
+    (∀ k, k < 8 → ∃ j, j < 8 ∧ INDEX_MAP.getD j 0 = k) ∧
+    intended4 false c0 c1 m 0 = BcSpec.interp 1 0 c0 c1 m ∧ intended4 false c0 c1 m 1 = BcSpec.interp 0 1 c0 c1 m ∧
+    (∀ k, 2 ≤ k → k ≤ 5 → intended4 false c0 c1 m k = BcSpec.interp (6 - k) (k - 1) c0 c1 m) ∧
+    intended4 false c0 c1 m 6 = 0 ∧ intended4 false c0 c1 m 7 = 1 := by
+  have h4 := indexMap4 c0 c1 m
+  refine ⟨indexMap6 c0 c1 m, (indexMap6_ends c0 c1 m).1, (indexMap6_ends c0 c1 m).2, ?_, h4.1, h4.2.1, h4.2.2.1,
+    h4.2.2.2.1, h4.2.2.2.2⟩
+  decide
+
+open Dds.Enc15 in
+/-- T3 (BC4 palettes in binary32), PARTIAL.  Full statement: for EVERY pair of endpoint levels `hi > lo` (UNORM bytes
+`0..255`, SNORM levels `0..254` written as `from_norm`), the value `Inter6Palette::closest` computes for step `j`,
+`j as f32 * factor2 + c1` with `factor2 = (1/7)·(c0 − c1)` over `n8::f32` / `s8::uf32`, and the eight
+`Inter4Palette::new(c0, c1).colors` (`c0 * 0.8 + c1 * 0.2` …) round to the decoder's 8-bit entry of the written index
+(exact ties of the exact entry excepted — they exist only under SNORM, e.g. 889/1778 — where the decoder goes up) and lie
+within `2^-22` of the exact entry.  PROVED here on the sub-domain `hi = max, lo ≥ 1` and `hi = lo + 1, lo ≥ 1` (2 × 254 resp.
+2 × 253 pairs per mode; steps `j = 1..7`, all 8 entries of the four-interpolant palette), kernel-checked
+(`Proofs/EncBc15Pal4*.lean`).  GAP: the remaining pairs (4 × 32 640 pairs ≈ 30 operations × 1–2 ms in the kernel ≈ 1–2 h)
+and step 0 / `lo = 0` (adding a zero in the software float aligns 150-bit integers whose `Nat.log2` costs the kernel
+seconds) are evaluated by the compiled model only (the same checks over the whole domain: no exception for UNORM; under
+SNORM 2 + 79 exact ties; notes/C13.md) — a test, not a theorem.  The emitted INDEXES do not depend on these values (`bc4_index_map_spec`; `cl15`). -/
+theorem bc4_palette_f32_partial (snorm : Bool) (kind i : Nat) (hk : kind < 2) (hi : i + 1 < denOf snorm) :
+    let hl := subPair snorm kind i
+    hl.2 < hl.1 ∧ hl.1 ≤ denOf snorm ∧ 1 ≤ hl.2 ∧
+    (∀ j, 1 ≤ j → j < 8 →
+      let e := endpointsOfBytes snorm (byteOf snorm hl.1) (byteOf snorm hl.2)
+      let v := (Inter6Palette.new e.c0f e.c1f).stepValue j
+      f32Small v = true ∧
+      (f32Nearest8 v = dec4 snorm true hl.1 hl.2 (INDEX_MAP.getD j 0) ∨
+        510 * (j * hl.1 + (7 - j) * hl.2) + 7 * denOf snorm =
+          2 * dec4 snorm true hl.1 hl.2 (INDEX_MAP.getD j 0) * (7 * denOf snorm)) ∧
+      f32Within22 v (j * hl.1 + (7 - j) * hl.2) (7 * denOf snorm) = true) ∧
+    (∀ k, k < 8 →
+      let e := endpointsOfBytes snorm (byteOf snorm hl.2) (byteOf snorm hl.1)
+      let v := (inter4Colors e.c0f e.c1f).getD k 0
+      f32Small v = true ∧
+      (f32Nearest8 v = dec4 snorm false hl.2 hl.1 k ∨
+        510 * num4 hl.2 hl.1 (denOf snorm) k + den4 (denOf snorm) k =
+          2 * dec4 snorm false hl.2 hl.1 k * den4 (denOf snorm) k) ∧
+      f32Within22 v (num4 hl.2 hl.1 (denOf snorm) k) (den4 (denOf snorm) k) = true) ∧
+    (∀ six l0 l1 k, dec4 false six l0 l1 k = Bc.bc4Lut (Bc.bc4uOps .u8) l0 l1 l0 l1 six k) ∧
+    (∀ six l0 l1 k, dec4 true six l0 l1 k =
+      Bc.bc4Lut (Bc.bc4sOps .u8) (Bc.s8n8 (fromNorm l0)) (Bc.s8n8 (fromNorm l1)) l0 l1 six k) := by
+  have f := subPair_facts snorm kind i hi
+  have h := bc4_palette_sub snorm kind i hk hi
+  exact ⟨f.1, f.2.1, f.2.2.2, fun j hj1 hj => (okEntryT_iff _ _ _ _).mp (h.1 j hj1 hj),
+    fun k hk8 => (okEntryT_iff _ _ _ _).mp (h.2 k hk8), dec4_unorm, dec4_snorm⟩
+
+open Dds.Enc15 in
+/-- UNORM pair (255, 1): step 3 has index 5, the decoder shows 110 and so does the f32 value; SNORM levels (254, 1) are
+the bytes (127, 0x82) -/
+example :
+    subPair false 0 0 = (255, 1) ∧ INDEX_MAP.getD 3 0 = 5 ∧ dec4 false true 255 1 5 = 110 ∧
+    f32Nearest8 ((Inter6Palette.new (Conv.n8f32 255) (Conv.n8f32 1)).stepValue 3) = 110 ∧
+    subPair true 0 0 = (254, 1) ∧ byteOf true 254 = 127 ∧ byteOf true 1 = 130 := by decide +kernel
 
 end Dds.C13
